@@ -194,10 +194,19 @@ def edit_op(rnd, f='a', span=12, other=None, weights=None):
 
 def motif(rnd, f='a', span=12):
     """short directed sequences aimed at incremental-update corner cases (each step is an ordinary editing operation)"""
-    k = rnd.choice(['introduce', 'there-and-back', 'swap', 'chain-edit', 'erase-recreate', 'func-body-edit'])
+    k = rnd.choice(['introduce', 'there-and-back', 'swap', 'chain-edit', 'erase-recreate', 'func-body-edit', 'index-edit'])
     i, j, t = rnd.randrange(span), rnd.randrange(span), rnd.randrange(span)
     name = rnd.choice(DANGLING[:6])
     mk = lambda **kw: dict({'op': 'form.op', 'f': f}, **kw)
+    if k == 'index-edit':
+        # edits that change nothing but an index of a projection / filter (same tree shape, same operands)
+        forms = ['Pr1($[0]×$[%d])', 'Pr2($[0]×$[%d])', 'Pr2,1($[0]×$[%d])', 'Pr1,2($[0]×$[%d])', 'D{ξ∈$[0]×$[%d] | pr1(ξ)=pr1(ξ)}', 'D{ξ∈$[0]×$[%d] | pr2(ξ)=pr1(ξ)}',
+                 'Fi1[$[0]]($[0]×$[%d])', 'Fi2[$[0]]($[0]×$[%d])']
+        a, b, c = [f % j for f in rnd.sample(forms, 3)]
+        return [mk(k='emplace', type='term', **{'def': a}),
+                mk(k='emplace', type='term', **{'def': 'card($[-1])'}),
+                mk(k='setexpr', uid={'idx': -2}, text=b),
+                mk(k='setexpr', uid={'idx': -2}, text=c)]
     if k == 'func-body-edit':
         # a function keeps its type, arguments and value class while its body changes; dependants call it with a PROPERTY
         # argument (their value class is derived from the callee's stored syntax tree)
